@@ -32,10 +32,10 @@ def check(prog, ctx):
     f_eval, T, roles = evaluator_roles(prog, ctx)
     if roles is None:
         raise Undecided('evaluator form of Interpolate not recognised')
-    integrate(prog, ctx, roles)
-    extrema(prog, ctx, roles)
-    extrema2d(prog, ctx)
-    extrema_state(prog, ctx)
+    ctx.sub('integrate', integrate, prog, ctx, roles)
+    ctx.sub('extrema', extrema, prog, ctx, roles)
+    ctx.sub('extrema2d', extrema2d, prog, ctx)
+    ctx.sub('extrema_state', extrema_state, prog, ctx)
 
 
 def integrate(prog, ctx, roles):
@@ -394,8 +394,21 @@ def extrema_state(prog, ctx):
                 B = set(b_.split(' ')[0] for b_ in bad)
                 fillers = set(w for fld in B for w in writers.get(fld, set()) if not w.d.get('ctor'))
                 stale = []
+                def reads_closure(w_):
+                    todo_, seen_, out_ = [w_], set(), set()
+                    while todo_:
+                        g_ = todo_.pop()
+                        if g_.sig in seen_ or g_.q in search:
+                            continue
+                        seen_.add(g_.sig)
+                        out_ |= set(field_reads(g_))
+                        for c2_ in calls(g_):
+                            cc2 = c2_.get('callee') or {}
+                            if cc2.get('cls') == cq and cc2.get('inrepo'):
+                                todo_ += prog.fns(cc2['q'])
+                    return out_
                 for w in fillers:
-                    for p in field_reads(w):
+                    for p in reads_closure(w):
                         if p in B:
                             continue
                         for S_ in writers.get(p, set()):
